@@ -873,21 +873,23 @@ def evaluate(ctx, impl, cases, res, source="generated"):
 
 
 def judge_single(res, inp, env, timeout, ob, m, sp):
-    if sp["model_violations"]:
-        # the model itself breaks a clause: only inside the known-finding region
-        if not (sp["model_violations"] == ["timeoutSound"] and has_eintr(env)):
-            res.disagree("model", inp, ob, m, sp, note="the MODEL violates Spec clauses %s" % sp["model_violations"])
-            return 1
     if not representable(ob["out"]):
         res.disagree("spec", inp, ob, m, sp, note="implementation raised/returned something the property does not allow: %r" % (ob["out"],))
         return 1
     iv = sp["impl_violations"]
     if iv:
+        # the implementation's own observation breaks a clause of the Spec: a failing input
         fid = FINDING_EINTR if (iv == ["timeoutSound"] and in_eintr_region(env, timeout, ob)) else None
         if fid:
             res.known_seen[fid] = res.known_seen.get(fid, 0) + 1
         res.disagree("spec", inp, ob, m, sp, note="implementation violates Spec clauses %s" % iv, finding=fid)
         if not fid:
+            return 1
+    if sp["model_violations"]:
+        # the model itself breaks a clause (proved impossible for the good configuration): only
+        # inside the known-finding region, or when the translator changed the configuration
+        if not (sp["model_violations"] == ["timeoutSound"] and has_eintr(env)):
+            res.disagree("model", inp, ob, m, sp, note="the MODEL violates Spec clauses %s" % sp["model_violations"])
             return 1
     if not same_single(ob, m):
         res.disagree("model", inp, ob, m, sp, note="implementation and model observations differ (Spec clauses hold)")
@@ -896,25 +898,37 @@ def judge_single(res, inp, env, timeout, ob, m, sp):
 
 
 def judge_wprocs(res, inp, ob, m, sp):
-    if sp["model_violations"]:
-        res.disagree("model", inp, ob, m, sp, note="the MODEL violates Spec clauses %s" % sp["model_violations"])
-        return 1
     if ob["kind"] == "exc":
         res.disagree("model", inp, ob, m, sp, note="could not build the Process objects")
         return 1
     if ob["kind"] == "raised":
         k = ob["out"]["kind"]
         tmo = inp["case"]["timeout"]
-        allowed = (k == "exc" and ob["out"]["exc"] == "ValueError" and m.get("kind") == "raised") or \
-            (k in ("fuel", "hang") and m.get("kind") == "raised" and m["out"]["kind"] in ("fuel", "hang"))
-        if not allowed:
-            kind = "spec" if (m.get("kind") == "ok" or (tmo is not None and k in ("fuel", "hang"))) else "model"
-            res.disagree(kind, inp, ob, m, sp, note="wait_procs raised %r" % (ob["out"],))
+        neg = tmo is not None and Fr(*tmo) < 0
+        if k == "exc" and ob["out"]["exc"] == "ValueError":
+            # allowed for a negative timeout, or when a process reports a non-termination status word
+            ok = neg or (m.get("kind") == "raised" and m["out"] == ob["out"])
+        elif k in ("fuel", "hang"):
+            # never coming back is allowed only without a timeout
+            ok = tmo is None and m.get("kind") == "raised" and m["out"]["kind"] in ("fuel", "hang")
+        else:
+            ok = False
+        if not ok:
+            spec_level = m.get("kind") == "ok" or (tmo is not None and k in ("fuel", "hang")) or \
+                not (k == "exc" and ob["out"]["exc"] == "ValueError")
+            res.disagree("spec" if spec_level else "model", inp, ob, m, sp, note="wait_procs raised %r" % (ob["out"],))
             return 1
         return 0
+    tmo = inp["case"]["timeout"]
+    if tmo is not None and Fr(*tmo) < 0:
+        res.disagree("spec", inp, ob, m, sp, note="wait_procs accepted a negative timeout")
+        return 1
     iv = sp["impl_violations"]
     if iv:
         res.disagree("spec", inp, ob, m, sp, note="implementation violates Spec clauses %s" % iv)
+        return 1
+    if sp["model_violations"]:
+        res.disagree("model", inp, ob, m, sp, note="the MODEL violates Spec clauses %s" % sp["model_violations"])
         return 1
     if not same_wprocs(ob, m):
         res.disagree("model", inp, ob, m, sp, note="implementation and model observations differ (Spec clauses hold)")
